@@ -59,11 +59,22 @@ instance : Scalar Float where
   decLe := fun a b => inferInstanceAs (Decidable (a ≤ b))
   eqb := fun a b => a == b
 
-/-! ### Rat instance (exact; transcendental fields unsupported = 0) -/
+/-! ### Rat instance (exact; transcendental fields unsupported = 0; `sqrt` exact on squares of
+rationals, 0 otherwise) -/
+
+def natSqrtExact (n : Nat) : Option Nat :=
+  let r := Nat.sqrt n
+  if r * r = n then some r else none
+
+def ratSqrt (x : Rat) : Rat :=
+  if x < 0 then 0 else
+  match natSqrtExact x.num.toNat, natSqrtExact x.den with
+  | some a, some b => mkRat (a : Int) b
+  | _, _ => 0
 
 instance : Scalar Rat where
   ofNat := fun n => (n : Rat)
-  sqrt := fun _ => 0
+  sqrt := ratSqrt
   cbrt := fun _ => 0
   pi := 0
   sin := fun _ => 0
